@@ -213,13 +213,28 @@ def comment_classes(lines, i):
     return out
 
 
-def render_seq(s, lines):
-    """one line sequence -> text lines; declaration on line i is the function q<s>_<i>"""
+def enum_classes(lines, i):
+    """finding classes of the enumerator on line i (1-based) of an enumerator list"""
+    out = comment_classes(lines, i)
+    # a trailing // comment and the // lines that follow it are merged into one block by the lexer
+    if lines[i - 1] == "declt" and i < len(lines) and lines[i] == "cpp":
+        out.append("C05-enum-trailing-merge")
+    j = i - 1
+    while j >= 1 and lines[j - 1] == "cpp":
+        j -= 1
+    if j < i - 1 and j >= 1 and lines[j - 1] == "declt":
+        out.append("C05-enum-trailing-merge")
+    return out
+
+
+def render_seq(s, lines, enum=False):
+    """one line sequence -> text lines; the declaration on line i is the function (enumerator) q<s>_<i>"""
     L = []
     for i, k in enumerate(lines, 1):
         c = "c%d_%d" % (s, i)
-        f = "void q%d_%d();" % (s, i)
-        L.append({"cpp": "// " + c, "c": "/* " + c + " */", "blank": "", "decl": f, "cdecl": "/* " + c + " */ " + f}[k])
+        f = ("q%d_%d," if enum else "void q%d_%d();") % (s, i)
+        L.append({"cpp": "// " + c, "c": "/* " + c + " */", "blank": "", "decl": f, "cdecl": "/* " + c + " */ " + f,
+                  "declt": f + " // " + c}[k])
     return L
 
 
@@ -229,18 +244,21 @@ def expected_comment(s, lines, attach):
     parts = []
     for j in sorted(attach):
         c = "c%d_%d" % (s, j)
-        parts.append("// " + c if lines[j - 1] == "cpp" else "/* " + c + " */")
+        parts.append("// " + c if lines[j - 1] in ("cpp", "declt") else "/* " + c + " */")
     return "\n".join(parts)
 
 
 def run_comment_batch(a):
-    tmp, b, seqs = a
-    work = os.path.join(tmp, "cm%d" % b)
+    tmp, b, seqs, enum = a
+    work = os.path.join(tmp, "cm%d%s" % (b, "e" if enum else ""))
     os.makedirs(work)
     L = ["__begin_publish"]
     for s, rec in seqs:
-        L += render_seq(s, rec["lines"])
-        L += ["void sep%d();" % s, ""]          # a declaration and an empty line isolate the sequences
+        if enum:
+            L += ["enum Q%d {" % s] + render_seq(s, rec["lines"], True) + ["};", ""]
+        else:
+            L += render_seq(s, rec["lines"])
+            L += ["void sep%d();" % s, ""]          # a declaration and an empty line isolate the sequences
     L.append("__end_publish")
     open(os.path.join(work, "c.h"), "w").write("\n".join(L) + "\n")
     g = subprocess.run(GXX + ["-x", "c++", "c.h"], cwd=work, stdout=subprocess.PIPE, stderr=subprocess.PIPE, text=True)
@@ -254,6 +272,11 @@ def run_comment_batch(a):
     if "functions" not in d:
         return dict(b=b, rc="dump:%s" % d.get("crashed"), err="")
     got = {}
+    if enum:
+        for t in d["types"].values():
+            for v in t["enum_values"]:
+                got[v["name"]] = (v["comment"], {v["comment"]})
+        return dict(b=b, rc=0, got=got)
     for f in d["functions"].values():
         wc = {d["wrappers"][str(w)]["comment"] for w in f["c_wrappers"]}
         got[f["name"]] = (f["comment"] if f["has_comment"] else "", wc)
@@ -265,6 +288,7 @@ def run_check(ctx):
     quick = ctx.tier == "quick"
     cfgs = [("ExportDescMC", c) for c in (QUICK if quick else THOROUGH)]
     cfgs.append(("CommentAttachMC", "CommentAttach_quick" if quick else "CommentAttach_thorough"))
+    cfgs.append(("CommentAttachMC", "CommentAttach_enum" if quick else "CommentAttach_enum_thorough"))
     if os.environ.get("C05_CFGS"):          # development aid
         cfgs = [(("CommentAttachMC" if c.startswith("Comment") else "ExportDescMC"), c) for c in os.environ["C05_CFGS"].split(",")]
 
@@ -272,15 +296,15 @@ def run_check(ctx):
         spec, cfg = sc
         dump = os.path.join(ctx.tmp, cfg + ".ndjson")
         return cfg, dump, tlc.run(spec, cfg, workers=4, env={"VERIF_DUMP": dump}, timeout=2400, xmx="3g")
-    libs, seqs = [], []
-    for cfg, dump, res in run.pmap(one, cfgs, workers=5 if quick else 2):
+    libs, seqs, eseqs = [], [], []
+    for cfg, dump, res in run.pmap(one, cfgs, workers=6 if quick else 2):
         ctx.add_tlc(res)
         if res.verdict == "invariant":
             raise MachineryError("%s: model invariant %s violated\n%s" % (cfg, res.violated, res.out[-3000:]))
         tlc.must_ok(res, cfg)
         got = sorted({json.dumps(r, sort_keys=True) for r in tlc.read_dump(dump)})
         ctx.notes.setdefault("cases_per_cfg", {})[cfg] = len(got)
-        (seqs if cfg.startswith("Comment") else libs).extend(json.loads(x) for x in got)
+        (eseqs if "_enum" in cfg else seqs if cfg.startswith("Comment") else libs).extend(json.loads(x) for x in got)
 
     # ---- libraries ----
     cases = list(enumerate(libs))
@@ -304,9 +328,12 @@ def run_check(ctx):
 
     # ---- comment placement ----
     sq = list(enumerate(seqs))
-    cb = [(ctx.tmp, b, sq[k:k + 400]) for b, k in enumerate(range(0, len(sq), 400))]
+    esq = list(enumerate(eseqs))
+    cb = [(ctx.tmp, b, sq[k:k + 400], False) for b, k in enumerate(range(0, len(sq), 400))]
+    cb += [(ctx.tmp, b, esq[k:k + 400], True) for b, k in enumerate(range(0, len(esq), 400))]
     n_decl = 0
     for res, ba in zip(run.pmap(run_comment_batch, cb, workers=min(NCPU, 10)), cb):
+        enum = ba[3]
         if "gxx_error" in res:
             raise MachineryError("g++ rejects a comment-sweep header: %s" % res["gxx_error"])
         if res["rc"] != 0:
@@ -315,19 +342,20 @@ def run_check(ctx):
         for s, rec in ba[2]:
             lines = rec["lines"]
             for i, k in enumerate(lines, 1):
-                if k not in ("decl", "cdecl"):
+                if k not in ("decl", "cdecl", "declt"):
                     continue
                 n_decl += 1
                 want = expected_comment(s, lines, rec["attach"][i - 1])
                 fc, wc = res["got"].get("q%d_%d" % (s, i), (None, set()))
                 if fc != want or wc != {want}:
-                    ctx.violation("comment of the declaration on line %d of %s: reference %r, database %r (wrappers %r)" % (
-                        i, lines, want, fc, sorted(wc)),
-                        dict(lines=lines, text="\n".join(render_seq(s, lines)), line=i, expected=want, observed=fc,
-                             stat_key="comment %s" % (lines,)), classes=comment_classes(lines, i))
+                    ctx.violation("comment of the %s on line %d of %s: reference %r, database %r (wrappers %r)" % (
+                        "enumerator" if enum else "declaration", i, lines, want, fc, sorted(wc)),
+                        dict(lines=lines, text="\n".join(render_seq(s, lines, enum)), line=i, expected=want, observed=fc,
+                             enumerators=enum, stat_key="comment %s %s" % ("enum" if enum else "decl", lines)),
+                        classes=enum_classes(lines, i) if enum else comment_classes(lines, i))
     ctx.cov["evaluations"] = n_facts + n_decl
-    ctx.cov["traces_validated_against_impl"] = len(cases) + len(sq)
-    ctx.cov["distinct_nontrivial"] = len(cases) + len(sq)
+    ctx.cov["traces_validated_against_impl"] = len(cases) + len(sq) + len(esq)
+    ctx.cov["distinct_nontrivial"] = len(cases) + len(sq) + len(esq)
     ctx.cov["exhaustive"] = True
     ctx.cov["rule"] = ("every library of the ExportDesc cfgs (all signatures over the parameter / return / role alphabets, "
                        "all pairs of fixed-shape members with comment styles, all hierarchies of <= 3 classes with base "
@@ -342,7 +370,8 @@ def run_check(ctx):
         "class with a non-polymorphic base; no downcast through a virtual base)",
         "comment reference: consecutive // lines form one block, every /* */ is its own block, a line without a comment "
         "ends a block, a block attaches to the declaration that starts on its last line or on the next line and to no other; "
-        "trailing comments after a declaration on the same line are outside the claimed domain",
+        "trailing comments after a declaration on the same line are outside the claimed domain, except in enumerator lists "
+        "where the parser documents that a same-line comment belongs to the enumerator (sequences of length <= 4)",
         "properties / sequences (MAKE_PROPERTY, MAKE_SEQ) and typedefs are not in the enumerated alphabet",
     ]
     for i, rec in cases[:: max(1, len(cases) // 4)][:4]:
